@@ -29,6 +29,11 @@ CLAIMED = {
    text="Generated programs interleaving assign, capture, loops that shadow outer names and forloop, conditionals and cycles end with a read of every variable and are compared with the reference interpreter; every generated fragment F is also rendered directly and through capture+print, which must agree.",
    note="Trusted: the reference interpreter. The include clause of the statement is exercised by C14's check (included templates read assigned variables). Outcomes the statements leave open are counted as unspecified and asserted nowhere.",
    ref="DESIGN.md 7.C12"),
+ "C10": dict(
+   technique="property-based testing: exhaustive branch-position enumeration with counting/failing conditions, exhaustive case subject x when pairs, if/unless duality as a metamorphic relation, rapid-generated programs against a reference interpreter",
+   text="Every universe value in every position of if/elsif/else chains (and unless) with the later conditions replaced by counting, failing, unknown and dividing-by-zero filters; every subject/when pair for case; the if/unless duality on generated conditions including failing ones; and generated conditional programs against the reference interpreter with tick counts.",
+   note="Trusted: the reference interpreter's truthiness and ==. Within one and/or expression the statement does not promise short-circuiting, so tick counts are checked against a [short-circuit, eager] interval. case/when pairs whose equality the statement leaves open are counted as unspecified.",
+   ref="DESIGN.md 7.C10"),
 }
 
 REASON_PENDING = "check not built yet in this snapshot of /verif (planned: see DESIGN.md section 7); nothing is claimed for it"
